@@ -2,7 +2,7 @@
 degenerate."""
 import ast
 
-from sa.helpers import (mkflow, spec, code, one, calls, bind_call, param_env,
+from sa.helpers import (the_return, mkflow, spec, code, one, calls, bind_call, param_env,
                         loop_matches, fmt, atom_of, unparse, unalloc, call_kw)
 from sa.index import AnalysisError
 from sa.algebra import RF
@@ -123,7 +123,7 @@ def run(ix, R):
     site2 = E + '::contribute_ktau_emission'
     with R.guard('2', 'SIB', site2, 'emission k kernel'):
         f2, fl2, env2, buf2 = inner_nest(ix, R, '2', site2, C02.KE_PARAMS)
-        r = one(fl2.of('return'), 'return')
+        r = the_return(fl2)
         R.check('2.ret', 'SIB', site2, 'returns the per-g optical depth buffer',
                 fl2.tab.equal(r.value, buf2), key='returns %s' % fmt(fl2, r.value),
                 detail='returns %s' % fmt(fl2, r.value), loc=f2.loc(r.node))
